@@ -47,6 +47,9 @@ def run(chk):
     chk.trusted = ["clang 14 AST", "SWIG naming convention", "CPython ast"]
     chk.floor = 40
     fs = cfront.functions(cfront.load_tu("htmc"))
+    from checks import C12 as _c12
+    _c12.HELPERS.clear()
+    _c12.HELPERS.update({k: v for k, v in fs.items() if "::" not in k})
     for nm in ("HTMC::lookup_id", "HTMC::intersect", "HTMC::cbincount", "HTMC::init", "gcirc"):
         if nm not in fs:
             raise AnalysisError("C++ anchor %s not found" % nm)
@@ -107,10 +110,18 @@ def lookup(chk, repo, fs):
     inits = [render(r) for d, r in f.defs_at(loops[0], ivar) if d.label != "inc"] if ok else []
     chk.ob("R13.1", "lookup_id::all-elements", ok and inits == ["0"], f.where, "one loop i = 0 .. size(ra)-1")
     ptr = {}
+    alias = {}
+    for n in f.cfg.nodes:
+        for v, rhs in node_defs(n):
+            rd = ref_desc(rhs)
+            if rd[0] == "param":
+                alias[v] = rd          # a local that is just a (cast) copy of a parameter
     for n in f.cfg.nodes:
         for v, rhs in node_defs(n):
             ar = array_read(rhs)
             if ar:
+                if ar[0][0] == "local" and ar[0][1] in alias:
+                    ar = (alias[ar[0][1]], ar[1])
                 ptr[v] = ar
     calls = [(n, x) for n in f.cfg.nodes if isinstance(n.c, dict) for x in walk(n.c) if x.get("kind") == "CXXMemberCallExpr" and callee_name(x) == "lookupID"]
     ok = len(calls) == 1
@@ -128,8 +139,11 @@ def lookup(chk, repo, fs):
                     st = (render(l["inner"][0]), render(c["inner"][1]))
     ok = st is not None and ptr.get(st[0]) == (("param", p_out), ivar)
     if ok:
-        idd = [rhs for n in f.cfg.nodes for v, rhs in node_defs(n) if v == st[1]]
-        ok = len(idd) == 1 and "lookupID(" in render(idd[0])
+        if "lookupID(" in st[1]:
+            ok = True             # the looked-up id is stored directly
+        else:
+            idd = [rhs for n in f.cfg.nodes for v, rhs in node_defs(n) if v == st[1]]
+            ok = len(idd) == 1 and "lookupID(" in render(idd[0])
     chk.ob("R13.1", "lookup_id::stored-at-same-index", bool(ok), f.where, "the id is stored into the output at the same index i")
     init = Fn(fs["HTMC::init"])
     txt = [render(n.c) for n in init.cfg.nodes if isinstance(n.c, dict)]
